@@ -56,10 +56,15 @@ mod raw {
         ];
         posix::poll(&mut fds, timeout)?;
 
+        // POLLERR must count as ready: when the child closes its stdin while
+        // our end of the pipe is full, poll() reports only POLLERR for it.
+        // The subsequent write then fails with EPIPE, which is the correct
+        // outcome, instead of the lack of ready streams being taken for a
+        // timeout.
         Ok((
-            fds[0].test(posix::POLLOUT | posix::POLLHUP),
-            fds[1].test(posix::POLLIN | posix::POLLHUP),
-            fds[2].test(posix::POLLIN | posix::POLLHUP),
+            fds[0].test(posix::POLLOUT | posix::POLLHUP | posix::POLLERR),
+            fds[1].test(posix::POLLIN | posix::POLLHUP | posix::POLLERR),
+            fds[2].test(posix::POLLIN | posix::POLLHUP | posix::POLLERR),
         ))
     }
 
